@@ -64,7 +64,20 @@ abbrev T : TPat := .var "T"
 abbrev K : TPat := .var "key"
 abbrev V : TPat := .var "value"
 
-/-- the registered signatures, by name -/
+/-- the three shapes `ArrayFunctions.scala` registers for every entry of `arrayOps` -/
+def vectorised (arg ret : TPat) : List Sig :=
+  [⟨[.array arg, arg], .array ret⟩, ⟨[arg, .array arg], .array ret⟩, ⟨[.array arg, .array arg], .array ret⟩]
+
+/-- a function registered once per numeric type -/
+def perNumeric (f : TPat → Sig) : List Sig := [f .int32, f .int64, f .float32, f .float64]
+
+abbrev N : TPat := .num "T"
+
+/-- the registered signatures, by name.  RETURN patterns: for functions registered with `registerIR` the engine's `lookupIR` unifies
+the ARGUMENTS only and `ApplyIR.explicitNode` then asserts that the declared return type is the type of the implementation's body —
+so the pattern below is the body's type (e.g. `div` on int arrays: `FloatingPointDivide` gives float64, although the table in
+`arrayOps` says `TFloat32`, a value nothing reads; `get` without default: the dict's value type); for JVM functions
+(`registerScalaFunction`: scalar `mod`, `pow`) it is the registered return type, unified like a parameter. -/
 def signatures : String → List Sig
   | "append" => [⟨[.array T, T], .array T⟩]
   | "extend" => [⟨[.array T, .array T], .array T⟩]
@@ -72,13 +85,19 @@ def signatures : String → List Sig
   | "toSet" => [⟨[.array T], .set T⟩]
   | "isEmpty" => [⟨[.array T], .bool⟩, ⟨[.set T], .bool⟩, ⟨[.dict K V], .bool⟩]
   | "contains" => [⟨[.array T, T], .bool⟩, ⟨[.set T, T], .bool⟩, ⟨[.dict K V, K], .bool⟩, ⟨[.str, .str], .bool⟩]
-  | "add" => [⟨[.set T, T], .set T⟩]
+  | "add" => ⟨[.set T, T], .set T⟩ :: vectorised N T
+  | "sub" => vectorised N T
+  | "mul" => vectorised N T
+  | "floordiv" => vectorised N T
+  | "mod" => vectorised N T ++ perNumeric fun t => ⟨[t, t], t⟩
+  | "div" => vectorised .int32 .float64 ++ vectorised .int64 .float64 ++ vectorised .float32 .float32 ++ vectorised .float64 .float64
+  | "pow" => vectorised N .float64 ++ perNumeric fun t => ⟨[t, t], .float64⟩
   | "remove" => [⟨[.set T, T], .set T⟩]
   | "union" => [⟨[.set T, .set T], .set T⟩]
   | "intersection" => [⟨[.set T, .set T], .set T⟩]
   | "difference" => [⟨[.set T, .set T], .set T⟩]
   | "isSubset" => [⟨[.set T, .set T], .bool⟩]
-  | "get" => [⟨[.dict K V, K, V], V⟩, ⟨[.dict K V, K], .var "tvalue"⟩]      -- `tv("tvalue")`, as registered
+  | "get" => [⟨[.dict K V, K, V], V⟩, ⟨[.dict K V, K], V⟩]
   | "index" => [⟨[.dict K V, K], V⟩]
   | "keySet" => [⟨[.dict K V], .set K⟩]
   | "keys" => [⟨[.dict K V], .array K⟩]
